@@ -203,6 +203,9 @@ pub struct PaintTrace {
     pub glyphs: Vec<u32>,
     /// answers of paint_cached_color_glyph: 0 = Unimplemented, 1 = Ok, 2 = Err; cycled
     pub cache_answers: Vec<u8>,
+    /// client variant: bit 0 = the client implements fill_glyph itself (sees one event instead of clip/fill/pop)
+    #[serde(default)]
+    pub client: u8,
 }
 
 #[derive(Clone, Copy, PartialEq, Debug)]
@@ -212,8 +215,15 @@ enum Kind {
     Layer,
 }
 
+fn mode_code(m: CompositeMode) -> u8 {
+    // the discriminant as the painter sees it (Debug name hashed to a byte keeps this independent of the enum layout)
+    (fnv(format!("{m:?}").as_bytes()) & 0xFF) as u8
+}
+
 struct Monitor<'a> {
     stack: Vec<Kind>,
+    /// composite modes of the open layers, innermost last
+    layer_modes: Vec<(u8, String)>,
     events: u64,
     bad: Option<String>,
     answers: &'a [u8],
@@ -278,11 +288,64 @@ impl ColorPainter for Monitor<'_> {
             _ => Ok(PaintCachedColorGlyph::Unimplemented),
         }
     }
-    fn push_layer(&mut self, _m: CompositeMode) {
+    fn push_layer(&mut self, m: CompositeMode) {
+        self.layer_modes.push((mode_code(m), format!("{m:?}")));
         self.push(Kind::Layer)
     }
     fn pop_layer(&mut self) {
+        self.layer_modes.pop();
         self.pop(Kind::Layer)
+    }
+    // A client that merges layers at pop time is told which mode to merge with: it must be the mode of
+    // the innermost open layer, i.e. the one given to the matching push.
+    fn pop_layer_with_mode(&mut self, m: CompositeMode) {
+        if let Some((code, name)) = self.layer_modes.last() {
+            if *code != mode_code(m) && self.bad.is_none() && self.stack.last() == Some(&Kind::Layer) {
+                self.bad = Some(format!("pop_layer_with_mode({m:?}) while the innermost open layer was pushed with {name} (event {})", self.events + 1));
+            }
+        }
+        self.pop_layer();
+    }
+}
+
+/// The same client, but one that implements the combined clip-and-fill operation itself (as the
+/// trait documentation recommends); the plain `Monitor` keeps the provided implementation.
+struct OwnFill<'a>(Monitor<'a>);
+
+impl ColorPainter for OwnFill<'_> {
+    fn push_transform(&mut self, t: Transform) {
+        self.0.push_transform(t)
+    }
+    fn pop_transform(&mut self) {
+        self.0.pop_transform()
+    }
+    fn push_clip_glyph(&mut self, g: GlyphId) {
+        self.0.push_clip_glyph(g)
+    }
+    fn push_clip_box(&mut self, b: BoundingBox<f32>) {
+        self.0.push_clip_box(b)
+    }
+    fn pop_clip(&mut self) {
+        self.0.pop_clip()
+    }
+    fn fill(&mut self, b: Brush<'_>) {
+        self.0.fill(b)
+    }
+    fn fill_glyph(&mut self, _glyph_id: GlyphId, _brush_transform: Option<Transform>, _brush: Brush<'_>) {
+        self.0.events += 1;
+        self.0.digest.u64(98);
+    }
+    fn paint_cached_color_glyph(&mut self, g: GlyphId) -> Result<PaintCachedColorGlyph, PaintError> {
+        self.0.paint_cached_color_glyph(g)
+    }
+    fn push_layer(&mut self, m: CompositeMode) {
+        self.0.push_layer(m)
+    }
+    fn pop_layer(&mut self) {
+        self.0.pop_layer()
+    }
+    fn pop_layer_with_mode(&mut self, m: CompositeMode) {
+        self.0.pop_layer_with_mode(m)
     }
 }
 
@@ -597,7 +660,7 @@ impl Engine for PaintMonitor {
             2 => (0..1 + rng.below(5)).map(|_| rng.below(3) as u8).collect(),
             _ => vec![0, 0, 2],
         };
-        PaintTrace { font, faults, coords, glyphs, cache_answers }
+        PaintTrace { font, faults, coords, glyphs, cache_answers, client: if rng.chance(1, 4) { 1 } else { 0 } }
     }
     fn execute(&self, t: &mut PaintTrace, stats: &mut Stats) -> Verdict {
         let cf = &color_fonts()[t.font];
@@ -627,8 +690,16 @@ impl Engine for PaintMonitor {
             for fmt in [ColorGlyphFormat::ColrV1, ColorGlyphFormat::ColrV0] {
                 let Some(glyph) = cg.get_with_format(GlyphId::new(g), fmt) else { continue };
                 let _ = glyph.bounding_box(LocationRef::new(&coords), Size::new(16.0));
-                let mut m = Monitor { stack: vec![], events: 0, bad: None, answers: &t.cache_answers, cache_calls: 0, digest: Digest::new(), max_depth: 0 };
-                let r = glyph.paint(LocationRef::new(&coords), &mut m);
+                let m = Monitor { stack: vec![], layer_modes: vec![], events: 0, bad: None, answers: &t.cache_answers, cache_calls: 0, digest: Digest::new(), max_depth: 0 };
+                let (r, m) = if t.client & 1 != 0 {
+                    let mut c = OwnFill(m);
+                    let r = glyph.paint(LocationRef::new(&coords), &mut c);
+                    (r, c.0)
+                } else {
+                    let mut m = m;
+                    let r = glyph.paint(LocationRef::new(&coords), &mut m);
+                    (r, m)
+                };
                 paints += 1;
                 stats.bump("oracle.C13.callback_history_monitor");
                 stats.add("sim.paint_callbacks", m.events);
@@ -670,7 +741,7 @@ impl Engine for PaintMonitor {
                 d.u64(r.is_ok() as u64);
             }
         }
-        Verdict::Pass { digest: d.finish(), sig: fnv(serde_json::to_string(&(&t.font, &t.faults, &t.coords, &t.glyphs, &t.cache_answers)).unwrap_or_default().as_bytes()), nontrivial: landed > 0 && paints > 0 }
+        Verdict::Pass { digest: d.finish(), sig: fnv(serde_json::to_string(&(&t.font, &t.faults, &t.coords, &t.glyphs, &t.cache_answers, t.client)).unwrap_or_default().as_bytes()), nontrivial: landed > 0 && paints > 0 }
     }
     fn shrink(&self, t: &PaintTrace) -> Vec<PaintTrace> {
         let mut out = Vec::new();
@@ -685,6 +756,9 @@ impl Engine for PaintMonitor {
         }
         if !t.cache_answers.is_empty() {
             out.push(PaintTrace { cache_answers: vec![], ..t.clone() });
+        }
+        if t.client != 0 {
+            out.push(PaintTrace { client: 0, ..t.clone() });
         }
         out
     }
